@@ -75,7 +75,7 @@ theorem shapes_get {J : Type} (A : Array (WNode J)) (i : Nat) : (shapes A)[i]? =
 
 /-- the wire node written for an item of the encoder's walk is the wire node it came from -/
 theorem wireOf_item {nameOf : J → String} {ofName : String → Option J} {A : Array (WNode J)}
-    {plan : Plan} {an : Array Annot} (F : DecFacts nameOf A plan an)
+    {plan : Plan} {an : Array Annot} (F : DecFacts0 nameOf A plan an)
     (hof : ∀ j, ofName (nameOf j) = some j) (o : WOut) (i : Nat) (hD : EncD A o.node)
     (hphi : encPhi A o.node = i) (hk : kidsMatch o (((shapes A)[i]?).getD Sh.leaf)) :
     ∃ n, A[i]? = some n ∧ wireOf ofName plan o = some n := by
@@ -148,7 +148,7 @@ theorem enc_nodes {nameOf : J → String} {ofName : String → Option J} {A : Ar
   · simpa using hsz
   · intro i o ho
     obtain ⟨hD, hphi, _, hk⟩ := hit i o ho
-    obtain ⟨n, hA, hwo⟩ := wireOf_item F hof o i hD hphi hk
+    obtain ⟨n, hA, hwo⟩ := wireOf_item F.toDecFacts0 hof o i hD hphi hk
     exact ⟨n, by simpa using hA, hwo⟩
 
 /-- **the encoder collects the witness values in index order**: the witness bit strings the encoder
@@ -184,7 +184,7 @@ theorem enc_wits_gen {nameOf : J → String} {A : Array (WNode J)}
       rw [hi', two_mul_div, if_pos (two_mul_mod _)]
     · obtain ⟨j, hj⟩ : ∃ j, o.node = 2 * j + 1 := ⟨o.node / 2, by omega⟩
       rw [hj, two_mul_succ_div] at hA
-      obtain ⟨r, hr, _⟩ := enc_key_odd (plan := plan) F j a b hA hh
+      obtain ⟨r, hr, _⟩ := enc_key_odd (plan := plan) F.toDecFacts0 j a b hA hh
       rw [← hj, hphi] at hr
       obtain ⟨rb, hrb, _⟩ := hiddenAt_some hr
       obtain ⟨nd, hp, hcn⟩ := F.node i _ hrb
